@@ -2,7 +2,7 @@
    Statements only; proofs in Codec_proofs.v and Utf8_proofs.v. [pack_*] is the model of the Go
    encoders (packet.go, connect.go, publish.go, subscribe.go, unsubscribe.go, pub*.go),
    [spec_decode] is an independent decoder written from the standard. *)
-From MQ Require Import Base Codec SpecDecode Codec_proofs Inbound Parse Utf8_proofs.
+From MQ Require Import Base Codec SpecDecode Codec_proofs Inbound Parse Utf8_proofs C05Flows C05Flows_proofs.
 Open Scope N_scope.
 
 (* the shifts and masks of remainingLength compute the arithmetic form *)
@@ -83,6 +83,52 @@ Theorem C05_publish_parse_inverse : forall m t, m_qos m <= 2 -> m_id m < 65536 -
   parse_publish (publish_flags m) (publish_body m t) = Ok (delivered m).
 Proof. exact publish_parse_inverse. Qed.
 
+(* "a PUBLISH from the broker is delivered with exactly the encoded topic, payload and flags", for whole
+   streams: for EVERY sequence of broker packets (PUBLISH of any QoS with a well-formed topic, PUBREL,
+   and packets the reader only routes: CONNACK, PUBACK, PUBREC, PUBCOMP, SUBACK, UNSUBACK, PINGRESP)
+   encoded into one byte stream, the serve-loop model (readPacket, Parse, QoS flow) makes exactly the
+   hand-overs and acknowledgement writes of the QoS flow on the encoded messages, then sees io.EOF *)
+Theorem C05_inbound_stream : forall h ps s, Forall bpkt_ok ps -> enc_stream ps = Some s ->
+  in_events (fst (serve h s)) = serve_in h [] (flow_pkts ps) /\ snd (serve h s) = EndErr EEOF.
+Proof. exact stream_flow. Qed.
+
+(* a QoS 2 PUBLISH is handed over at its PUBREL with exactly the encoded fields, regardless of what
+   arrives between the two (any packets that are not a QoS 2 PUBLISH / PUBREL of the same identifier).
+   The model is value based: it cannot exhibit two Go slices sharing memory; that the implementation
+   behaves like the model on such sequences is checked by the correspondence (V_inseq / M_inseq). *)
+Theorem C05_inbound_qos2_delivery : forall h pre m mid post s, m_qos m = 2 ->
+  Forall bpkt_ok (pre ++ BPublish m :: mid ++ BPubRel (m_id m) :: post) ->
+  forallb (fun p => negb (btouches (m_id m) p)) mid = true ->
+  enc_stream (pre ++ BPublish m :: mid ++ BPubRel (m_id m) :: post) = Some s ->
+  let sb1 := sb_set (serve_in_sb h [] (flow_pkts pre)) (m_id m) (as_delivered m) in
+  let sb2 := sb_del (serve_in_sb h sb1 (flow_pkts mid)) (m_id m) in
+  in_events (fst (serve h s)) =
+    serve_in h [] (flow_pkts pre) ++ [WPubRec (m_id m)] ++ serve_in h sb1 (flow_pkts mid)
+    ++ hand h (as_delivered m) ++ [WPubComp (m_id m)] ++ serve_in h sb2 (flow_pkts post).
+Proof. exact stream_q2_delivery. Qed.
+
+(* every message the handler receives is, field by field, one of the encoded PUBLISH packets *)
+Theorem C05_inbound_hands_encoded : forall h ps s x, Forall bpkt_ok ps -> enc_stream ps = Some s ->
+  In (EvIn (Hand x)) (fst (serve h s)) -> exists m, In (BPublish m) ps /\ x = as_delivered m.
+Proof. exact stream_hands_encoded. Qed.
+
+(* packets written through retry handles (ErrorWithRetry.Retry), for EVERY sequence of interruptions
+   of a QoS 1/2 publish: one PUBLISH with DUP=0, then only PUBLISHes with DUP=1, then (QoS 2) only
+   PUBRELs - never a PUBLISH after the PUBREL, never a PUBREL for QoS 1 *)
+Theorem C05_retry_shape : forall m c cuts, m_qos m = 1 \/ m_qos m = 2 ->
+  exists k j, concat (pub_run m (PSend false) (c :: cuts)) =
+              pubd m false :: repeat (pubd m true) k ++ repeat (rel m) j
+              /\ (m_qos m = 1 -> j = O).
+Proof. exact pub_run_shape. Qed.
+
+(* ... and each of them is read back by the independent decoder as the requested fields (DUP only in
+   the PUBLISH header; the PUBREL has the reserved flags 0010, otherwise spec_decode rejects it) *)
+Theorem C05_retry_packets_decode : forall m d, m_id m < 65536 -> m_qos m = 1 \/ m_qos m = 2 ->
+  (forall b, pubd m d = Some b ->
+     spec_decode b = Some (PPublish d (m_qos m) (m_retain m) (m_topic m) (Some (m_id m)) (m_payload m), [])) /\
+  (forall b, rel m = Some b -> spec_decode b = Some (PPubRel (m_id m), [])).
+Proof. exact retry_packets_decode. Qed.
+
 Print Assumptions C05_go_shifts.
 Print Assumptions C05_varint_defined.
 Print Assumptions C05_varint_roundtrip.
@@ -97,3 +143,8 @@ Print Assumptions C05_small_packets.
 Print Assumptions C05_validate_rejects.
 Print Assumptions C05_validate_accepts_iff.
 Print Assumptions C05_publish_parse_inverse.
+Print Assumptions C05_inbound_stream.
+Print Assumptions C05_inbound_qos2_delivery.
+Print Assumptions C05_inbound_hands_encoded.
+Print Assumptions C05_retry_shape.
+Print Assumptions C05_retry_packets_decode.
